@@ -138,6 +138,7 @@ class AV:
 
 import os as _os
 _DEBUG_SYMIDX = bool(_os.environ.get("VERIF_DEBUG_SYMIDX"))
+_NO_IDX_SIMP = bool(_os.environ.get("VERIF_NO_IDX_SIMP"))
 
 
 class ZA:
@@ -163,8 +164,10 @@ class ZA:
         return self._fl
 
     def read(self, idx):
-        if not z3.is_bv_value(idx):
-            idx = z3.simplify(idx)     # constant expressions (header lengths read back from the buffer)
+        if not z3.is_bv_value(idx) and not _NO_IDX_SIMP:
+            i2 = z3.simplify(idx)     # constant expressions (header lengths read back from the buffer)
+            if z3.is_bv_value(i2):
+                idx = i2
         if z3.is_bv_value(idx):
             k = idx.as_long()
             v = self.ov.get(k)
@@ -182,8 +185,10 @@ class ZA:
 
     def write(self, idx, val, cc=None):
         """returns a new ZA; cc = condition under which the write happens (None = always)"""
-        if not z3.is_bv_value(idx):
-            idx = z3.simplify(idx)
+        if not z3.is_bv_value(idx) and not _NO_IDX_SIMP:
+            i2 = z3.simplify(idx)
+            if z3.is_bv_value(i2):
+                idx = i2
         if z3.is_bv_value(idx):
             k = idx.as_long()
             ov = dict(self.ov)
